@@ -1047,7 +1047,7 @@ func tkOutsideDomain(c *Ctx) {
 
 // tkExpectDecode computes, from the model's front-end answer and the REAL json/cbor libraries applied to the payload
 // the model says is handed to Unmarshal, what DecodeToken must return.  Returns the canonical outcome string.
-func tkExpectDecode(model string) (string, bool) {
+func tkExpectDecode(c *Ctx, model string) (string, bool) {
 	// model: ((v4 STAGE) (v3 STAGE))
 	if !strings.HasPrefix(model, "((v4 ") || !strings.HasSuffix(model, "))") {
 		return "", false
@@ -1066,8 +1066,10 @@ func tkExpectDecode(model string) (string, bool) {
 			return "payload", s[10 : len(s)-2]
 		case strings.HasPrefix(s, "(err (b64err "):
 			return "b64err", s[13 : len(s)-2]
-		case s == "(err invalid-v3)" || s == "(err invalid-v4)":
-			return "sentinel", ""
+		case s == "(err invalid-v3)":
+			return "sentinel", "invalid V3 token"
+		case s == "(err invalid-v4)":
+			return "sentinel", "invalid V4 token"
 		}
 		return "?", s
 	}
@@ -1108,7 +1110,15 @@ func tkExpectDecode(model string) (string, bool) {
 		if err := json.Unmarshal(p, &t); err != nil {
 			return Render(L(A("err"), S("invalid token: error unmarshaling token: "+err.Error()))), true
 		}
-		return "(ok " + Render(tkV3Sx(t)) + ")", true
+		// the check DecodeTokenV3 makes after Unmarshal is the model's (checkV3); the driver is idle here
+		// (Batch has collected every answer before the checks run)
+		switch c.Drv.Ask(L(A("token.check-v3"), tkV3Sx(t))) {
+		case "(ok)":
+			return "(ok " + Render(tkV3Sx(t)) + ")", true
+		case "(err invalid-v3)":
+			return Render(L(A("err"), S("invalid token: invalid V3 token"))), true
+		}
+		return "", false
 	}
 	return "", false
 }
@@ -1150,7 +1160,7 @@ func tkFuzzOne(c *Ctx, b *tkBatch, family string, s string) {
 	replay := map[string]any{"family": family, "input": s, "input_hex": hex.EncodeToString([]byte(s))}
 	if utf8.ValidString(impl) {
 		b.addCheck("front", L(A("token.front"), S(hex.EncodeToString([]byte(s)))), func(model string) string {
-			exp, ok := tkExpectDecode(model)
+			exp, ok := tkExpectDecode(c, model)
 			if ok && exp == impl {
 				return ""
 			}
@@ -1200,6 +1210,9 @@ func tkB64Variants(r *Rng, payload []byte) []string {
 	}
 	return out
 }
+
+// tkF9Witnesses: inputs on which the code before the fix panicked (findings/F9.json).
+var tkF9Witnesses = []string{"", "c", "cashu", "éé", "🥜", "cashuAe30", "cashuAe30=", "cashuAeyJ0b2tlbiI6W119", "cashuAeyJ0b2tlbiI6bnVsbH0"}
 
 // ---- type-directed wrong-shaped JSON for TokenV3
 
@@ -1499,9 +1512,26 @@ func runTokenFuzz(c *Ctx) {
 	}
 	b.flush()
 
-	// regression / known-witness replay of F9 (the two shapes found on the unfixed code)
-	for _, w := range []string{"", "cashu", "cashuAe30", "cashuAeyJ0b2tlbiI6W119"} {
-		tkFuzzOne(c, b, "F9-witness", w)
+	// regression: the witnesses of F9 (found on the code before the fix: commit) must now be rejected with an error
+	for _, w := range tkF9Witnesses {
+		tkFuzzOne(c, b, "F9-regression", w)
+		var err error
+		var dec cashu.Token
+		p := tkRecover(func() { dec, err = cashu.DecodeToken(w) })
+		switch {
+		case p != "":
+			// reported by tkFuzzOne with the signature of the original finding
+		case err == nil:
+			if acc := tkAccessors(dec); acc.pMint != "" {
+				// reported by tkFuzzOne with the signature of the original finding
+			} else {
+				c.MonitorFail("C14", "C14/F9-regression/accepted", fmt.Sprintf("F9 witness %q is accepted again", w), map[string]any{"input": w})
+			}
+		default:
+			c.Hist("F9-regression", "rejected: "+err.Error())
+		}
+		// what the model of the code BEFORE the fix says about the witness (documentation of the regression)
+		c.Hist("F9-regression", "old model: "+tkClip(c.Drv.Ask(L(A("token.front-old"), S(hex.EncodeToString([]byte(w))))), 80))
 	}
 	b.flush()
 	c.Sample(map[string]any{"families": sortedKeys(c.Res.Hist["family"])})
